@@ -61,13 +61,14 @@ pub struct RecSim;
 
 const TICK_CAP: u64 = 300_000;
 
-fn run_one(g: &G, toks: &[u8], mode: RecMode, life: &Life, pmode: PMode) -> Outcome {
+/// Outcome + number of user-closure calls (`hook::cb`) of the LAST parse of the lifecycle.
+fn run_one_counted(g: &G, toks: &[u8], mode: RecMode, life: &Life, pmode: PMode) -> (Outcome, u64) {
     set_rec_mode(mode);
     let built = std::panic::catch_unwind(std::panic::AssertUnwindSafe(|| build::<&[u8]>(g)));
     set_rec_mode(RecMode::Direct);
     let p: BP<'_, &[u8]> = match built {
         Ok(p) => p,
-        Err(_) => return Outcome::Panicked { msg: hook::take_panic() },
+        Err(_) => return (Outcome::Panicked { msg: hook::take_panic() }, 0),
     };
     hook::begin_op(0, u64::MAX, u64::MAX);
     hook::begin_ticks(TICK_CAP);
@@ -87,13 +88,15 @@ fn run_one(g: &G, toks: &[u8], mode: RecMode, life: &Life, pmode: PMode) -> Outc
         }
         Life::Twice => {
             let _ = exec::<&[u8], _, _>(&p, || toks, pmode, 0);
+            hook::end_op();
+            hook::begin_op(0, u64::MAX, u64::MAX);
             hook::begin_ticks(TICK_CAP);
             exec::<&[u8], _, _>(&p, || toks, pmode, 0)
         }
     };
-    hook::end_op();
+    let (cbs, _, _) = hook::end_op();
     hook::end_ticks();
-    o
+    (o, cbs)
 }
 
 pub struct Verdict {
@@ -115,7 +118,7 @@ pub fn run_spec(c: &RecCase) -> (u64, Option<Verdict>, bool, Option<String>) {
                     let k = toks.len() + 2;
                     for pmode in [PMode::Parse, PMode::Check] {
                         // the unrolling is the reference; it never touches Recursive or stacker
-                        let u = run_one(&g, &toks, RecMode::Unroll(k), &Life::Value, pmode);
+                        let (u, ucalls) = run_one_counted(&g, &toks, RecMode::Unroll(k), &Life::Value, pmode);
                         if let Outcome::Panicked { msg } = &u {
                             if msg.starts_with(hook::BUDGET_MSG) {
                                 return (d, None, true, None);
@@ -129,11 +132,15 @@ pub fn run_spec(c: &RecCase) -> (u64, Option<Verdict>, bool, Option<String>) {
                         }
                         d = fold(d, u.digest());
                         for (name, mode) in [("recursive()", RecMode::Direct), ("declare/define", RecMode::Indirect)] {
-                            let o = run_one(&g, &toks, mode, &life, pmode);
+                            let (o, ocalls) = run_one_counted(&g, &toks, mode, &life, pmode);
                             d = fold(d, o.digest());
                             if o != u {
                                 let class = if o.is_panic() && !u.is_panic() { "recursive-panics-unrolling-does-not" } else { "differs-from-unrolling" };
                                 return (d, Some(Verdict { class: format!("{}:{}:{:?}", class, name, pmode), expected: u, observed: o }), false, None);
+                            }
+                            if ocalls != ucalls && !o.is_panic() {
+                                // same result, but the grammar's own closures ran a different number of times
+                                return (d, Some(Verdict { class: format!("differs-from-unrolling(user-closure calls):{}:{:?}:{} vs {}", name, pmode, ucalls, ocalls), expected: u, observed: o }), false, None);
                             }
                         }
                     }
